@@ -66,13 +66,13 @@ impl Prop for C06 {
     }
     fn rule(&self) -> String {
         "proptest generates legal histories with, at arbitrary points, a write the reference model rejects (vote with lower term / lower node, append of the same id with another payload, append with lower term, lower index, index gap, \
-         commit going backwards, truncate beyond last+1, truncate at or below the purged index (>=1)). Oracle: the call returns Err; state, read(0,MAX), cache item count / size / boundary, the resident set, the chunk list and on_disk_size are identical before and after the call \
+         commit going backwards, truncate beyond last+1, truncate at or below the purged index (>=1); and batches whose first 1-3 entries are legal and whose last entry is refused — there the accepted head is applied (a batch is not atomic by design) and the refused entry must leave no trace: state, entries, chunk list equal the model with the head only, the cache holds only live entries, and the final journal holds the head only). Oracle for the single-call rejections: the call returns Err; state, read(0,MAX), cache item count / size / boundary, the resident set, the chunk list and on_disk_size are identical before and after the call \
          (the worker is idle around it); all later ops follow the model; after a final flush the directory is byte-identical to the reference journal of the accepted writes only; a restart succeeds and shows the model state. \
          Non-trivial iff a rejection happens with >=1 entry cached and is followed by >=1 accepted write; distinct = case hash."
             .to_string()
     }
     fn assumptions(&self) -> Vec<String> {
-        vec!["rejection classes are those of the sequential specification in the property statement; truncate(0) belongs to C16".into(), "a multi-entry append whose first entry is legal is not used as a rejected write".into()]
+        vec!["rejection classes are those of the sequential specification in the property statement; truncate(0) belongs to C16".into(), "a multi-entry append is applied entry by entry (not atomic): for a batch with a refused tail entry only the refused entry and what follows it must leave no trace".into()]
     }
     fn cases(&self, tier: Tier) -> u32 {
         match tier {
@@ -97,6 +97,41 @@ impl Prop for C06 {
                 }
                 if let OpSpec::Reopen { cfg } = op {
                     reopen_checked(run, cfg)?;
+                    continue;
+                }
+                if let OpSpec::Reject { kind: crate::ops::RejectKind::BatchBadTail, .. } = op {
+                    // A batch whose tail entry is refused: the accepted head is applied (the
+                    // batch is not atomic, by design); the refused entry and the call's error
+                    // must leave no trace beyond that head.
+                    run.wait_stable();
+                    let d = run.exec(op)?;
+                    if let Done::Rejected { err, .. } = &d {
+                        nrej += 1;
+                        run.wait_stable();
+                        let what = format!("after the refused batch ({err})");
+                        let tag = |mut f: Fail| {
+                            f.key = format!("rejected-batch-tail-left-trace/{}", f.key);
+                            f.msg = format!("{what}: {}", f.msg);
+                            f
+                        };
+                        run.check_state().map_err(tag)?;
+                        run.check_full_read().map_err(tag)?;
+                        check_stat_layout(run).map_err(tag)?;
+                        let o = obs(run)?;
+                        // (purged-but-pinned entries may legitimately stay resident; nothing beyond
+                        // the last accepted index may)
+                        let last_idx = run.model.st().last.map(|l| l.1).unwrap_or(0);
+                        if let Some(bad) = o.resident.iter().find(|r| (r.0).1 > last_idx) {
+                            return Err(Fail::new("rejected-batch-tail-left-trace/cache", format!("{what}: the payload cache holds {:?}, an index beyond the last accepted entry {:?}", bad, run.model.st().last)));
+                        }
+                        let sz: u64 = o.resident.iter().map(|r| r.1).sum();
+                        if o.cache_items != o.resident.len() as u64 || o.cache_size != sz {
+                            return Err(Fail::new("rejected-batch-tail-left-trace/cache-accounting", format!("{what}: stat {} items / {} bytes, resident {} / {}", o.cache_items, o.cache_size, o.resident.len(), sz)));
+                        }
+                        if o.cache_items > 0 {
+                            rejected_with_cache = true;
+                        }
+                    }
                     continue;
                 }
                 if let OpSpec::Reject { kind, .. } = op {
